@@ -357,7 +357,8 @@ theorem insertDefTableOpts_unfold (ed : Editor α) (pos : Int) (defs : List (Lis
         if !full.isEmpty then
           ed.insert cx pos
             (Block.mk full (o.withDefaults cx).lineSep (!(o.withDefaults cx).noTrailing)).join
-        else pure ed) := rfl
+        else pure ed) := by
+  rw [Editor.insertDefTableOpts_eq_core]; rfl
 
 end defs
 
